@@ -1162,6 +1162,23 @@ def _copy_nodes(r):
     return out
 
 
+@contextlib.contextmanager
+def _toeplitz_normwise():
+    """Magnitude model of a Toeplitz node (as refmodel.dense_abs): the library multiplies through FFTs of the whole column, so the
+    rounding error of EVERY entry of a product is proportional to ||c||_1 (normwise) -- also where T itself is exactly zero:
+    |T|  ->  |T| + ||c||_1 / 2."""
+    orig = refmodel.toeplitz
+
+    def toeplitz(c):
+        return orig(c) + 0.5 * c.sum(-1, keepdim=True).unsqueeze(-1).expand(*c.shape, c.shape[-1])
+
+    refmodel.toeplitz = toeplitz
+    try:
+        yield
+    finally:
+        refmodel.toeplitz = orig
+
+
 def _abs_recipe(r):
     """The recipe used for the magnitude model: an elementwise product (computed by the library through root decompositions
     of both operands, hence with NORMWISE rounding errors) is modelled as  max|a| * |b| + |a| * max|b|  >= |a| * |b|."""
@@ -1217,7 +1234,8 @@ def _scales(b, hooks, G_hooks, g_ref, lossmag):
         for (rec, _), G in zip(hooks, G_hooks):
             if G is None:
                 continue
-            Aabs = refmodel.dense(_abs_recipe(rec), amap)  # (no abs() here: its derivative vanishes at exact zeros)
+            with _toeplitz_normwise():
+                Aabs = refmodel.dense(_abs_recipe(rec), amap)  # (no abs() here: its derivative vanishes at exact zeros)
             Gm = G.detach().abs()
             Gm = Gm + (Gm.max() if Gm.numel() else 0.0)
             total = total + (Gm * Aabs).sum()
@@ -1823,20 +1841,20 @@ def _singular_kron_factors(recs):
     return found
 
 
-EXACT_DENSE = {"Dense", "Minimal", "Diag", "ConstantDiag", "Toeplitz", "Identity"}  # to_dense() is the data itself, bit for bit
-
-
 def _symeig_rounds_negative(f):
-    """Does LinearOperator._symeig see a NEGATIVE eigenvalue for this singular PSD sub-matrix?  It calls torch.linalg.eigh on
-    the dense matrix; a zero eigenvalue comes back as 0.0 (diagonal / zero matrices: gradient kept since /repo 5c6550c) or as
-    +-1e-17 of rounding noise -- the negative ones are replaced by a constant (`torch.where(evals < 0, 0, evals)`) and lose
-    their gradient.  The same LAPACK call on the same bits decides here; for composite sub-matrices (whose to_dense() may
-    round differently from the reference's assembly) every singular one counts."""
-    if f["op"] not in EXACT_DENSE:
-        return True
+    """May LinearOperator._symeig see a NEGATIVE eigenvalue for this singular PSD sub-matrix?  It calls torch.linalg.eigh on a
+    dense matrix -- the sub-matrix itself or, in the non-constant-diagonal forms of KroneckerProductAddedDiag, D^-1/2 K D^-1/2 --
+    and replaces negative eigenvalues by a constant (`torch.where(evals < 0, 0, evals)`, gradient lost).  A zero eigenvalue comes
+    back as exactly 0.0 only for (batch members that are) diagonal matrices -- zero matrices, diagonal factors: their
+    tridiagonalisation is the identity, diagonal scalings keep the zeros exact; gradient kept since /repo 5c6550c.  For every
+    other singular matrix (a rank-deficient Gram matrix v v^T) the zero eigenvalue is +-1e-17 of rounding noise whose sign depends
+    on the matrix eigh finally sees: all of these count."""
     M = refmodel.dense(f)
-    w = torch.linalg.eigh(M)[0]
-    return bool((w < 0).any())
+    w = torch.linalg.eigvalsh(0.5 * (M + M.mT))
+    top = w.abs().max(dim=-1)[0]
+    singular = w.min(dim=-1)[0].abs() <= 1e-9 * top
+    offdiag = (M - torch.diag_embed(M.diagonal(dim1=-2, dim2=-1))).abs().flatten(-2).max(dim=-1)[0] > 0
+    return bool((singular & offdiag).any())
 
 
 def _neg_rounded_kron_factors(recs):
@@ -1904,10 +1922,15 @@ def _matmul_vector_batched(case):
     return case["ep"] in MATMUL_EPS and "rhs" in case and len(L.shape_of(case["rhs"])) == 1 and len(refmodel.shape(case["recipe"])) > 2
 
 
+BLOCK_NODES = ("BlockDiag", "BlockInterleaved", "SumBatch")
+
+
 def _toeplitz_wider_nodes(case, only_rg=True):
     """Toeplitz nodes whose column has a size-1 batch dim BEHIND a larger one while the vectors of the derivative can carry more
-    batch dimensions than the column (some node of the tree, or an operand, has a batch of higher rank):
-    ToeplitzLinearOperator._bilinear_derivative folds with  res.view(-1, *column.shape).sum(0)  -- the same pattern."""
+    batch dimensions than the column (some node of the tree, or an operand, has a batch of higher rank; a block / batch-sum
+    ancestor adds the block dimension to the vectors and may permute the column's batch dims, so below one ANY size-1 dim next to
+    a larger one counts):  ToeplitzLinearOperator._bilinear_derivative folds with  res.view(-1, *column.shape).sum(0)  -- the
+    same pattern as Matmul.backward."""
     recs = [case["recipe"]] + ([case["recipe2"]] if "recipe2" in case else [])
     rank = 0
     for x in recs:
@@ -1920,16 +1943,23 @@ def _toeplitz_wider_nodes(case, only_rg=True):
         if k in case:
             rank = max(rank, len(L.shape_of(case[k])) - 2)
     found = []
+
+    def visit(n, nblock):
+        if n["op"] == "Toeplitz" and (n["c"].get("rg") or not only_rg):
+            cb = tuple(L.shape_of(n["c"])[:-1])
+            big, inner1 = False, False
+            for d_ in cb:
+                inner1 = inner1 or (d_ == 1 and big)
+                big = big or d_ > 1
+            if nblock:
+                inner1 = big and any(d_ == 1 for d_ in cb)
+            if inner1 and rank + nblock > len(cb):
+                found.append(n)
+        for ch in R.children(n):
+            visit(ch, nblock + (1 if n["op"] in BLOCK_NODES else 0))
+
     for x in recs:
-        for n in R.walk(x):
-            if n["op"] == "Toeplitz" and (n["c"].get("rg") or not only_rg):
-                cb = tuple(L.shape_of(n["c"])[:-1])
-                big, inner1 = False, False
-                for d_ in cb:
-                    inner1 = inner1 or (d_ == 1 and big)
-                    big = big or d_ > 1
-                if inner1 and rank > len(cb):
-                    found.append(n)
+        visit(x, 0)
     return found
 
 
